@@ -191,12 +191,14 @@ func BuildQuerySQL(db *gorm.DB) {
 
 							{
 								onStmt := gorm.Statement{Table: tableAliasName, DB: db, Clauses: map[string]clause.Clause{}}
-								for _, c := range relation.FieldSchema.QueryClauses {
-									onStmt.AddClause(c)
-								}
-
+								// the join's own conditions first: the relation's query clauses (soft delete)
+								// group conditions joined by OR before adding theirs
 								if join.On != nil {
 									onStmt.AddClause(join.On)
+								}
+
+								for _, c := range relation.FieldSchema.QueryClauses {
+									onStmt.AddClause(c)
 								}
 
 								if cs, ok := onStmt.Clauses["WHERE"]; ok {
